@@ -1086,6 +1086,15 @@ func (e *Env) call(n *ast.CallExpr) tv {
 			return tv{t, nil}
 		}
 		return tv{False, nil}
+	case "ncalls": // ncalls("callee"): how many calls of a tracked callee the function under verification has completed on this path
+		lit, ok := n.Args[0].(*ast.BasicLit)
+		if !ok {
+			evalFail("ncalls: argument must be a string literal")
+		}
+		if t, ok := e.st.ghostV["ncalls|"+strings.Trim(lit.Value, "\"")].(*Term); ok {
+			return tv{t, types.Typ[types.Int]}
+		}
+		return tv{IntLit(0), types.Typ[types.Int]}
 	case "result": // result("callee", j): result j of the last call of a tracked callee on this path
 		lit, ok := n.Args[0].(*ast.BasicLit)
 		jl, ok2 := n.Args[1].(*ast.BasicLit)
